@@ -7,7 +7,7 @@ RULE = ("histories over the public mutation/arithmetic API of the three composit
         "past failures, ALL histories up to a fixed depth over a reduced alphabet in lock-step on the four "
         "forms, random histories (<= 40 ops, cache-populating calls injected) in lock-step and with mixed "
         "representations; class of a case = (form, set of op kinds used)")
-MODULES = ["Props.C06", "Props.C06Trace", "Inst.Variant", "Props.C06Keys", "Inst.C06"]
+MODULES = ["Props.C06", "Props.C06Trace", "Inst.Variant", "Props.C06Keys", "Inst.C06", "Props.C02FloatPerm"]
 
 
 def run(r: Run):
